@@ -959,6 +959,10 @@ pub fn check_agent_commands(obs: &Obs, targets: &[(Option<String>, String, Strin
     out.events += obs.target_frames.len() as u64;
     // A frame must be a command, addressed to a known target.
     for f in &obs.target_frames {
+        if f.corrupt {
+            out.violation("C14", "agent-command/corrupt-frame", "the byte stream the runtime wrote to a command channel is not a sequence of well-formed command frames", json!({"error": f.lane}));
+            continue;
+        }
         if !f.is_command {
             out.violation("C14", "agent-command/non-command-frame", "a frame other than a command was written to a command channel", json!({"lane": f.lane}));
         }
